@@ -212,9 +212,9 @@ type leftoverObserver struct {
 	files    []FileSpec
 	before   map[string]fileID
 	after    map[string]fileID
-	created  map[string]int  // path -> creating process
-	commitOK map[string]bool // path -> the table was committed by its transaction
-	inCommit map[int]bool    // process is in the swap phase of a COMMIT
+	created  map[string]int   // path -> creating process
+	commitOK map[string]bool  // path -> the table was committed by its transaction
+	inCommit map[int]bool     // process is in the swap phase of a COMMIT
 	early    map[int][]string // created files released "as committed" before the swap phase of the current commit
 }
 
